@@ -100,9 +100,12 @@ def subsUpTo : Nat → List String → List (List String)
   | 0, _ => [[]]
   | n + 1, x :: xs => (subsUpTo n xs).map (x :: ·) ++ subsUpTo (n + 1) xs
 
-/-- Call shapes with at most `mp` positionals and at most `mk` keywords drawn from `names`. -/
+/-- Call shapes with at most `mp` positionals and at most `mk` keywords drawn from `names`,
+fewest keywords first (so that the first counterexample found is a small one). -/
 def callShapes (mp mk : Nat) (names : List String) : List CCall :=
-  (List.range (mp + 1)).flatMap fun n => (subsUpTo mk names).map fun ks => ⟨n, ks⟩
+  let subs := subsUpTo mk names
+  (List.range (mk + 1)).flatMap fun r =>
+    (List.range (mp + 1)).flatMap fun n => (subs.filter (·.length == r)).map fun ks => ⟨n, ks⟩
 
 /-- First call shape (within the bound) bound by `exp` and not by `act`. -/
 def behCex (mp mk : Nat) (names : List String) (exp act : TDefSig τ) : Option CCall :=
@@ -140,13 +143,19 @@ actual positional-or-keyword parameter `n`, and the expected header accepts the 
 "got multiple values for argument". -/
 def D07_posKwClash (exp act : TDefSig τ) : Bool := clash (acceptsKw exp) exp.posL act.posL
 
+/-- The expected header accepts keyword `n` in a call whose positionals overflow into `*args`:
+`n` is not one of its positional-or-keyword parameters (those are filled positionally then), and it
+has `**kwargs` or a keyword-only parameter `n`. -/
+def acceptsKwStar (exp : TDefSig τ) (n : String) : Bool :=
+  !exp.pk.any (·.name == n) && (exp.vk.isSome || exp.ko.any (·.name == n))
+
 /-- **D07.starKwClash** — the expected header has `*args`, and the actual header has a
 positional-or-keyword parameter `n` beyond the expected positional parameters whose name the
 expected header accepts as a keyword: `exp(1, …, 1, n=2)` binds (the positionals go to `*args`),
 in `act` they fill `n` too. -/
 def D07_starKwClash (exp act : TDefSig τ) : Bool :=
   exp.vp.isSome &&
-    (act.posL.drop exp.posL.length).any fun a => a.kind == .posOrKw && acceptsKw exp a.name
+    (act.posL.drop exp.posL.length).any fun a => a.kind == .posOrKw && acceptsKwStar exp a.name
 
 /-- **D07.kwShadow** (typed) — an expected positional-or-keyword parameter `n` is absorbed by the
 actual `*args`/`**kwargs`, but the actual header also has a keyword-only parameter `n`, whose
